@@ -183,6 +183,12 @@ def _check(prop, tier, seed, repo, vacuity=True, update_baseline=False):
             undecided.append(str(e))
             fb = sorted(set(h for k, hs in cfg.get("fallback", {}).items() for h in hs if cfg.get("fallback_unit", {}).get(k, unit) == unit))
             fallback_wanted.append(("unit " + unit, fb))
+    # property-level watches: functions the property depends on that no unit puts under contract
+    for relf_, sel_, want_ in cfg.get("watch", []):
+        import weave as _weave
+        msg_ = _weave.watch_status(repo, relf_, sel_, want_)
+        if msg_:
+            undecided.append(msg_)
     # Kani harnesses
     kres = None
     kh = cfg.get("kani", {})
